@@ -278,9 +278,9 @@ pub fn run(args: &Args) -> i32 {
     let mut samples = vec![];
     let mut total_edges = 0u64;
     let plan: Vec<(Base, usize, u64)> = if args.quick() {
-        vec![(Base::ExecRich, 1, 30), (Base::ExecMin, 3, 30), (Base::TsRich, 1, 30), (Base::TsMin, 3, 30)]
+        vec![(Base::ExecRich, 1, 40), (Base::ExecMin, 4, 40), (Base::TsRich, 1, 40), (Base::TsMin, 4, 40)]
     } else {
-        vec![(Base::ExecRich, 2, 1200), (Base::ExecMin, 4, 900), (Base::TsRich, 2, 1200), (Base::TsMin, 4, 900)]
+        vec![(Base::ExecRich, 2, 1500), (Base::ExecMin, 5, 1200), (Base::TsRich, 2, 1500), (Base::TsMin, 5, 1200)]
     };
     for (base, dev, budget) in plan {
         let sample: std::sync::Mutex<Option<String>> = std::sync::Mutex::new(None);
